@@ -8,7 +8,8 @@ ID = "C19"
 COQ_DIR = "C19"
 RUN_MOD = "C19.Run"
 MODEL_TARGETS = ["C19/Run.vo"]
-PROOF_TARGETS = ["C19/Lemmas.vo", "C19/LemmasOps.vo", "C19/LemmasParse.vo", "C19/LemmasDecl.vo"]
+PROOF_TARGETS = ["C19/Lemmas.vo", "C19/LemmasOps.vo", "C19/LemmasParse.vo", "C19/LemmasDecl.vo", "C19/LemmasVec.vo",
+                 "C19/LemmasDup.vo"]
 PROPS = ["C19/Props.v"]
 ALLOWED_AXIOMS = []
 IMPL_TIMEOUT = 20.0
@@ -16,17 +17,22 @@ COQ_SHARD = 12
 
 RULE = ("random command graphs of 1-9 declarations (chains, forests, diamonds, dense DAGs, a command naming a parent "
         "and that parent's ancestor, several internal '!' option sets, duplicated/blank parent references, random "
-        "white space), unique store_true options and nargs='*' positionals assigned to random parsers or to the "
-        "ArgParser itself, then EVERY (parser name, option) pair, every standard option for every command, "
-        "default-command vectors (empty, option first, word first, internal set name first) and random mixed "
-        "vectors are parsed; a malformed stream (duplicate names, unknown/forward/self parents, empty names, "
-        "conflicting option strings, unknown get_cmd_parser names, bad default_command).  Non-trivial = a "
-        "constructed parser with at least one inherited option (some parser has a dependent) and one parsed vector.")
+        "white space); store_true options, options that take a value ('--name VALUE') and nargs='*' positionals assigned to "
+        "random parsers or to the ArgParser itself, now and then an option string that is already in use (as a flag or as a "
+        "value option) on a random target; then EVERY (parser name, option) pair ('--f', '--u VALUE', '--u=VALUE'), every "
+        "standard option for every command, value options without value / before an option / given twice, multi-token "
+        "vectors (several added flags around one block of words, with and without a command), default-command vectors "
+        "(empty, option first, word first, internal set name first) and random mixed vectors are parsed; a malformed stream "
+        "(duplicate names, unknown/forward/self parents, empty names, conflicting option strings of both kinds, unknown "
+        "get_cmd_parser names, bad default_command).  Non-trivial = a constructed parser with at least one inherited option "
+        "(some parser has a dependent) and one parsed vector.")
 TRUSTED_BASE = [
     "argparse (CPython 3.12): a parser accepts '--o' iff an action with that option string was added to it; parents=[...] copies the "
     "standard actions; conflicting option strings raise ArgumentError; sub-command dispatch through add_subparsers.  In the theorems "
-    "argparse is a universally quantified function with these hypotheses (sub_spec); the concrete stand-in mini_sub is proved to "
-    "satisfy them and is compared with the real argparse on every run",
+    "argparse is a universally quantified function with these hypotheses: sub_spec (single-option vectors) and sub_spec_vec "
+    "(vectors '--f.. w.. --g..' of store_true flags around one block of words for the nargs='*' positionals, '--u VALUE', "
+    "'--u=VALUE', a word first for a parser without positionals; acceptance and namespace); the concrete stand-in mini_sub is "
+    "proved to satisfy both and is compared with the real argparse on every run",
     "gen/C19_Consts.v: the shape of register_dependent (idempotent / assert-fresh), the literal ['-h','--help'] and the container "
     "consulted by the default-command test, the appended '--help', the standard option strings, the --color choices and default are "
     "read from ak/cli_tools.py by harness/props/c19.py:gen_consts (ast, fail-closed)",
@@ -36,13 +42,16 @@ TRUSTED_BASE = [
 ASSUMPTIONS = [
     "commands=[...] is given (multi-command mode); every declaration is (str, str)",
     "option names are distinct, are not the standard option strings and no option string is a proper prefix of another one "
-    "(argparse abbreviation matching is outside the model); options are store_true flags or nargs='*' positionals added with "
-    "add_argument on the ArgParser or on get_cmd_parser(name)",
+    "(argparse abbreviation matching is outside the model); options are store_true flags, '--name' options taking one value "
+    "(default None) or nargs='*' positionals added with add_argument on the ArgParser or on get_cmd_parser(name); other actions, "
+    "types, nargs, short option strings and several option strings per argument are not modelled (the propagation code forwards "
+    "args/kwargs unchanged)",
     "command names used in argument vectors do not start with '-'",
     "python is not run with -O (the declaration checks are assert statements)",
 ]
 MODELLED = ("ak/cli_tools.py AkArgumentParser, ArgParser.__init__ (multi-command branch), parse_args, _init_multicmd_parser, "
-            "add_argument, get_cmd_parser; not modelled: single-command mode, std_app_configure, help output, argparse internals")
+            "add_argument (store_true flags, one-value options, nargs='*' positionals), get_cmd_parser; not modelled: single-command "
+            "mode, std_app_configure, help output, argparse internals, other argparse actions/types")
 
 
 class ExtractError(Exception):
@@ -199,7 +208,8 @@ def gen_consts(repo):
 
 # ------------------------------------------------------------------ cases
 # case = {"cfg": [no_log, no_log_file, help_if_no_args], "cmds": [decl strings], "default": str|None,
-#         "ops": [[target|None, "flag"|"pos", name]], "argvs": [[str]], "shape": str}
+#         "ops": [[target|None, "flag"|"pos"|"val", name]], "argvs": [[str]], "shape": str}
+#   flag: add_argument('--name', action='store_true'); pos: add_argument('name', nargs='*'); val: add_argument('--name')
 STD_LONG = ["help", "verbose", "color", "no-color"]
 COLOR_CHOICES = ["auto", "always", "yes", "1", "never", "no", "0"]
 RESERVED = {"color", "command", "verbose", "no_color", "_no_log_file", "help"}
@@ -271,12 +281,26 @@ def _argvs(rng, g, ops, default, big):
     keys = [x[0] for x in g]
     cmds = [x[0] for x in g if not x[1]]
     ints = [x[0] for x in g if x[1]]
-    flags = [o[2] for o in ops if o[1] == "flag"]
+    flags = list(dict.fromkeys(o[2] for o in ops if o[1] == "flag"))
+    vals = list(dict.fromkeys(o[2] for o in ops if o[1] == "val"))
     av = []
     # every (parser name, option) pair
     for k in keys:
         for f in flags:
             av.append([k, "--" + f])
+        for u in vals:
+            av.append([k, "--" + u, rng.choice(["x", "w1", "never"])])
+            if big or rng.random() < 0.5:
+                av.append([k, "--" + u + "=" + rng.choice(["x", "zz"])])
+    # a value option without its value, before an option, given twice, between words
+    for u in vals:
+        c = rng.choice(cmds) if cmds else keys[0]
+        av.append([c, "--" + u])
+        av.append([c, "--" + u, "--" + (rng.choice(flags) if flags else "color")])
+        av.append([c, "--" + u, "x", "--" + u + "=zz"])
+        av.append([c, "w1", "--" + u, "x", "zz"])
+        av.append(["--" + u, "x"])
+        av.append(["--" + u + "=x", "w1"])
     # standard options for every command
     for c in cmds:
         av.append([c])
@@ -298,16 +322,25 @@ def _argvs(rng, g, ops, default, big):
         av.append(["x", i])
         if flags:
             av.append([i, "--" + rng.choice(flags)])
+    # multi-token vectors of added flags and one block of words (theorems option_scope_vector / vector_namespace /
+    # default_command_vector): for some commands, and without a command (default command)
+    if flags:
+        for c in rng.sample(cmds, min(len(cmds), 4 if big else 3)) + [None, None]:
+            pre = rng.sample(flags, min(len(flags), rng.randrange(0, 4)))
+            post = rng.sample(flags, min(len(flags), rng.randrange(0, 3)))
+            blk = [rng.choice(["x", "w1", "zz"]) for _ in range(rng.choice([0, 0, 1, 2, 3]))]
+            av.append(([c] if c else []) + ["--" + f for f in pre] + blk + ["--" + f for f in post])
     # random mixed vectors
-    toks = ["--" + f for f in flags] + ["--color", "--color=always", "--color=bad", "--color=auto", "--no-color", "-v", "-vv",
-                                        "--verbose", "--oqq"]
+    toks = [["--" + f] for f in flags] + [[t] for t in ["--color", "--color=always", "--color=bad", "--color=auto", "--no-color",
+                                                        "-v", "-vv", "--verbose", "--oqq"]]
+    toks += [["--" + u, "w1"] for u in vals] + [["--" + u + "=x"] for u in vals] + ([["--" + f + "=x"] for f in flags[:1]])
     for _ in range(10 if big else 6):
         v = []
         if rng.random() < 0.7 and keys:
             v.append(rng.choice(cmds or keys))
-        pre = [rng.choice(toks) for _ in range(rng.randrange(0, 3))]
+        pre = [t for _ in range(rng.randrange(0, 3)) for t in rng.choice(toks)]
         blk = [rng.choice(words) for _ in range(rng.choice([0, 0, 1, 2]))]
-        post = [rng.choice(toks) for _ in range(rng.randrange(0, 3))]
+        post = [t for _ in range(rng.randrange(0, 3)) for t in rng.choice(toks)]
         tail = [rng.choice(words)] if rng.random() < 0.1 else []     # a second block: rejected
         vec = v + pre + blk + post + tail
         if "--no-color" in vec:
@@ -332,6 +365,14 @@ def _mk_case(rng, shape, n, big, messy=False):
         ops.insert(rng.randrange(len(ops) + 1), [rng.choice([cmds[0], cmds[0], None] + keys), "pos", _name("p", 0)])
     if rng.random() < 0.2:
         ops.append([rng.choice(keys), "pos", _name("p", 1)])
+    # options that take a value
+    for i in range(rng.choice([0, 1, 1, 2])):
+        ops.insert(rng.randrange(len(ops) + 1), [None if rng.random() < 0.15 else rng.choice(keys), "val", _name("u", rng.randrange(0, 26) * 26 + i)])
+    # now and then an option string that is already in use, on a random target: ArgumentError iff the scopes meet
+    # (theorem duplicate_option_conflict); the case then ends at that call
+    if rng.random() < 0.12:
+        fl = [o for o in ops if o[1] in ("flag", "val")]
+        ops.append([None if rng.random() < 0.1 else rng.choice(keys), rng.choice(["flag", "flag", "val"]), rng.choice(fl)[2]])
     default = None
     r = rng.random()
     if r < 0.2 and cmds:
@@ -379,6 +420,19 @@ def _malformed(rng):
     c(["ca", "cb"], ops=[["ca", "flag", "verbose"]], cfg=(True, False, False), argvs=[["ca", "--verbose"], ["cb", "--verbose"], ["-v"]])
     c(["ca", "cb"], ops=[["ca", "flag", "help"]])
     c(["ca", "cb"], ops=[["ca", "flag", "no-color"]])
+    # options that take a value: conflicts with flags and standard options, parsing corner cases
+    c(["ca", "cb:ca"], ops=[["ca", "val", "uaa"], ["cb", "flag", "uaa"]])
+    c(["ca", "cb:ca"], ops=[["cb", "flag", "uaa"], ["ca", "val", "uaa"]])
+    c(["ca", "cb"], ops=[["ca", "val", "uaa"], ["cb", "flag", "uaa"]],
+      argvs=[["ca", "--uaa", "x"], ["cb", "--uaa"], ["cb", "--uaa", "x"], ["ca", "--uaa"], ["ca", "--uaa=x"], ["cb", "--uaa=x"]])
+    c(["ca", "cb"], ops=[[None, "val", "color"]])
+    c(["ca", "cb"], ops=[["ca", "val", "verbose"]], cfg=(True, False, False), argvs=[["ca", "--verbose", "x"], ["cb", "--verbose", "x"]])
+    c(["ca", "cb:ca", "!sa", "cc:sa"], ops=[["ca", "val", "uaa"], ["sa", "val", "ubb"], ["ca", "pos", "paa"], [None, "flag", "oaa"]],
+      argvs=[["cb", "--uaa", "x"], ["cb", "--uaa=x"], ["cb", "--uaa"], ["cb", "--uaa", "--oaa"], ["cb", "--uaa", "-v"], ["cc", "--uaa", "x"],
+             ["cc", "--ubb", "x"], ["cb", "--ubb", "x"], ["cb", "--uaa", "x", "--uaa", "y"], ["cb", "--uaa=x", "--uaa", "y"],
+             ["cb", "w", "--uaa", "x"], ["cb", "--uaa", "x", "w", "z"], ["cb", "w", "--uaa", "x", "z"], ["--uaa", "x"], ["--uaa", "x", "w"],
+             ["cb", "--uaa", "never", "--color", "never"], ["cb", "--color", "--uaa", "x"], ["cb", "--oaa=x"], ["cb", "--uaa=x=y"],
+             ["cb", "--uaa", "cb"], ["sa", "--ubb", "x"], ["cc", "--ubb=x", "--oaa"]])
     # configuration switches
     c(["ca", "cb:ca"], cfg=(True, True, False), argvs=[[], ["-v"], ["cb", "--no-color"], ["cb", "--verbose"]])
     c(["ca", "cb:ca"], cfg=(False, False, True), argvs=[[], ["cb"], ["x"]])
@@ -478,8 +532,12 @@ def impl_run(case):
             target = p if tgt is None else p.get_cmd_parser(tgt)
             if k == "flag":
                 target.add_argument("--" + name, action="store_true", help="h")
-            else:
+            elif k == "val":
+                target.add_argument("--" + name, help="h")
+            elif k == "pos":
                 target.add_argument(name, nargs="*", help="h")
+            else:
+                raise RuntimeError("unknown option kind in the case")
         except Exception as e:  # noqa
             obs["ops"] = ["err", _exc(e), i]
             return obs
@@ -514,7 +572,7 @@ def coq_case(case, obs):
     ops = []
     for tgt, k, name in case["ops"]:
         t = "TGlobal" if tgt is None else f"TCmd {SX.cstr(tgt)}"
-        ops.append(f"({t}, {'KFlag' if k == 'flag' else 'KPos'}, {SX.cstr(name)})")
+        ops.append(f"({t}, {dict(flag='KFlag', pos='KPos', val='KVal')[k]}, {SX.cstr(name)})")
     ops_t = "[" + "; ".join(ops) + "]" if ops else "(@nil (target * okind * list Z))"
     av = "[" + "; ".join(_cstrs(a) for a in case["argvs"]) + "]" if case["argvs"] else "(@nil (list (list Z)))"
     return (f"Case (mkCfg {SX.cbool(cfg[0])} {SX.cbool(cfg[1])} {SX.cbool(cfg[2])}) {_cstrs(case['cmds'])} "
@@ -590,12 +648,15 @@ def in_model(case, obs):
     reserved = RESERVED - ({"verbose"} if case["cfg"][0] else set())
     if not all(_safe_word(o) and "-" not in o and o not in reserved for o in optnames):
         return False
+    if any(o[1] not in ("flag", "pos", "val") for o in case["ops"]):
+        return False
     poss = [o[2] for o in case["ops"] if o[1] == "pos"]
-    if len(set(poss)) != len(poss) or set(poss) & {o[2] for o in case["ops"] if o[1] == "flag"}:
+    if len(set(poss)) != len(poss) or set(poss) & {o[2] for o in case["ops"] if o[1] != "pos"}:
         return False
     if any("-" in p for p in poss):
         return False
-    longs = set(STD_LONG) | {o[2] for o in case["ops"] if o[1] == "flag"}
+    valnames = {o[2] for o in case["ops"] if o[1] == "val"}
+    longs = set(STD_LONG) | {o[2] for o in case["ops"] if o[1] != "pos"}
     for a in case["argvs"]:
         has_no_color = "--no-color" in a
         for i, t in enumerate(a):
@@ -618,8 +679,10 @@ def in_model(case, obs):
                 if not _safe_word(v) or (v == "auto" and has_no_color):
                     return False
                 continue
-            body = t[2:]
-            if not _safe_word(body) or "=" in body:
+            body, eq, val = t[2:].partition("=")
+            if not _safe_word(body):
+                return False
+            if eq and not (val == "" or all(c.isascii() and (c.isalnum() or c in "_-=") for c in val)):
                 return False
             # argparse abbreviations: the token must not be a proper prefix of a known long option
             if any(l != body and l.startswith(body) for l in longs):
@@ -646,6 +709,13 @@ def _ancestors(decls):
             s |= anc[p]
         anc[name] = s
     return anc
+
+
+def _scope(declared, anc, tgt):
+    """names of the parsers an add_argument call on tgt (None = the ArgParser) must reach"""
+    if tgt is None:
+        return set(declared)
+    return {c for c in declared if c == tgt or tgt in anc[c]}
 
 
 def _has_shared_ancestor(decls):
@@ -678,19 +748,44 @@ def oracle(case, obs):
         tgt, k, name = case["ops"][i]
         names_all = [o[2] for o in case["ops"]]
         std = {"help", "color", "no-color"} | (set() if case["cfg"][0] else {"verbose"})
-        if names_all.count(name) == 1 and _safe_word(name) and name not in std and \
-                (tgt is None or tgt in [n for n, _, _ in decls]):
+        declared = [n for n, _, _ in decls]
+        if names_all.count(name) == 1 and _safe_word(name) and name not in std and (tgt is None or tgt in declared):
             out.append(("add-argument-raises", f"add_argument of the new option {name!r} on {tgt or 'the ArgParser'!r} raised {obs['ops'][1]}"))
-        return out          # otherwise duplicated option strings etc.: outside the quantifier
+        elif k in ("flag", "val") and _safe_word(name) and name not in std and (tgt is None or tgt in declared) and \
+                all(o[1] in ("flag", "val") and (o[0] is None or o[0] in declared) for o in case["ops"][:i] if o[2] == name):
+            # the same option string was added before: a conflict is legitimate only if some parser is in scope of both calls
+            anc0 = _ancestors(decls)
+            mine = _scope(declared, anc0, tgt)
+            if not any(mine & _scope(declared, anc0, o[0]) for o in case["ops"][:i] if o[2] == name):
+                out.append(("add-argument-raises",
+                            f"add_argument of {name!r} on {tgt or 'the ArgParser'!r} raised {obs['ops'][1]} although no parser is in scope "
+                            f"of this call and of an earlier call that added {name!r} (the option leaked into an unrelated parser)"))
+        return out          # otherwise a genuinely duplicated option string etc.: outside the quantifier
     if not in_model(case, obs):
         return out
     anc = _ancestors(decls)
+    declared = [n for n, _, _ in decls]
+    # every call returned: two calls that added the same option string must have disjoint scopes, otherwise the
+    # second one did not reach a parser it had to reach (argparse would have refused the duplicate there)
+    for i, (tgt, k, name) in enumerate(case["ops"]):
+        if k not in ("flag", "val"):
+            continue
+        for tgt0, k0, name0 in case["ops"][:i]:
+            if k0 in ("flag", "val") and name0 == name and _scope(declared, anc, tgt) & _scope(declared, anc, tgt0):
+                out.append(("option-not-inherited",
+                            f"{name!r} was added on {tgt0 or 'the ArgParser'!r} and again on {tgt or 'the ArgParser'!r} without a conflict "
+                            f"although both calls must reach {sorted(_scope(declared, anc, tgt) & _scope(declared, anc, tgt0))[0]!r}"))
     internal = {n for n, i, _ in decls if i}
     commands = [n for n, i, _ in decls if not i]
     flags = {}
+    vals = {}
     for tgt, k, name in case["ops"]:
         if k == "flag":
             flags.setdefault(name, []).append(tgt)
+        elif k == "val":
+            vals.setdefault(name, []).append(tgt)
+    for name in set(flags) & set(vals):       # one option string, two kinds (on unrelated parsers): not judged by name
+        del flags[name], vals[name]
     no_log = case["cfg"][0]
     default = case["default"] if case["default"] is not None else (commands[0] if commands else None)
     for argv, r, alt in zip(case["argvs"], obs["parses"], obs["alt"]):
@@ -705,6 +800,62 @@ def oracle(case, obs):
                 out.append(("option-leaks", f"{argv!r}: option added to {tgts!r} is accepted by {argv[0]}, which does not descend from any of them"))
             if accepted and dict((k, v) for k, v in r[1]).get("command") != [0, argv[0]]:
                 out.append(("wrong-command", f"{argv!r}: namespace.command is not {argv[0]!r}"))
+        # an option that takes a value: 'cmd --u VALUE' and 'cmd --u=VALUE'
+        vtok = None
+        if len(argv) == 3 and argv[0] in commands and argv[1].startswith("--") and argv[1][2:] in vals and _safe_word(argv[2]):
+            vtok = (argv[1][2:], argv[2])
+        elif len(argv) == 2 and argv[0] in commands and argv[1].startswith("--") and "=" in argv[1] and \
+                argv[1][2:].partition("=")[0] in vals:
+            vtok = (argv[1][2:].partition("=")[0], argv[1][2:].partition("=")[2])
+        if vtok is not None:
+            u, value = vtok
+            want = any(tgt is None or tgt == argv[0] or tgt in anc[argv[0]] for tgt in vals[u])
+            if want and not accepted:
+                out.append(("option-not-inherited", f"{argv!r}: option added to {vals[u]!r} (None = the ArgParser) is rejected ({r[1]}) by {argv[0]}"))
+            if not want and accepted:
+                out.append(("option-leaks", f"{argv!r}: option added to {vals[u]!r} is accepted by {argv[0]}, which does not descend from any of them"))
+            if want and accepted:
+                nsd = dict((k, v) for k, v in r[1])
+                if nsd.get(u) != [0, value]:
+                    out.append(("namespace-value", f"{argv!r}: namespace.{u} is {nsd.get(u)!r}, expected {value!r}"))
+                if nsd.get("command") != [0, argv[0]]:
+                    out.append(("wrong-command", f"{argv!r}: namespace.command is not {argv[0]!r}"))
+        if len(argv) > 2 and argv[0] in commands and vtok is None:
+            # several added flags and one block of words: accepted iff EVERY flag is in scope of the command and, when there
+            # are words, some nargs='*' positional is; the namespace has every flag in scope (True iff given) and the words
+            toks = argv[1:]
+            wpos = [i for i, t in enumerate(toks) if not t.startswith("-")]
+            if all((t.startswith("--") and t[2:] in flags) or not t.startswith("-") for t in toks) and \
+                    (not wpos or wpos[-1] - wpos[0] + 1 == len(wpos)):
+                def in_sc(tgts, c=argv[0]):
+                    return any(tgt is None or tgt == c or tgt in anc[c] for tgt in tgts)
+                given = [t[2:] for t in toks if t.startswith("--")]
+                words = [toks[i] for i in wpos]
+                pos_in = [name for tgt, k, name in case["ops"] if k == "pos" and in_sc([tgt])]
+                bad = [f for f in given if not in_sc(flags[f])]
+                if accepted and bad:
+                    out.append(("option-leaks", f"{argv!r}: accepted although {bad!r} were added to {[flags[f] for f in bad]!r}, none an ancestor of {argv[0]}"))
+                elif accepted and words and not pos_in:
+                    out.append(("option-leaks", f"{argv!r}: the words are accepted although no positional is in scope of {argv[0]}"))
+                elif not accepted and not bad and (not words or pos_in):
+                    out.append(("option-not-inherited", f"{argv!r}: rejected ({r[1]}) although every option is in scope of {argv[0]}"))
+                elif accepted:
+                    nsd = dict((k, v) for k, v in r[1])
+                    for f, tgts in flags.items():
+                        if in_sc(tgts) and nsd.get(f) != [2, 1 if f in given else 0]:
+                            out.append(("namespace-flag", f"{argv!r}: namespace.{f} is {nsd.get(f)!r}, expected {f in given}"))
+                        if not in_sc(tgts) and f in nsd:
+                            out.append(("option-leaks", f"{argv!r}: namespace has {f!r}, which is not in scope of {argv[0]}"))
+                    for u, tgts in vals.items():
+                        if in_sc(tgts) and nsd.get(u) != [1]:
+                            out.append(("namespace-value", f"{argv!r}: namespace.{u} is {nsd.get(u)!r}, expected None"))
+                        if not in_sc(tgts) and u in nsd:
+                            out.append(("option-leaks", f"{argv!r}: namespace has {u!r}, which is not in scope of {argv[0]}"))
+                    for j, pn in enumerate(pos_in):
+                        if nsd.get(pn) != [4, words if j == 0 else []]:
+                            out.append(("namespace-positional", f"{argv!r}: namespace.{pn} is {nsd.get(pn)!r}"))
+                    if nsd.get("command") != [0, argv[0]]:
+                        out.append(("wrong-command", f"{argv!r}: namespace.command is not {argv[0]!r}"))
         if len(argv) == 2 and argv[0] in commands and argv[1] in ("--color", "--no-color", "--color=never") and not accepted:
             out.append(("std-option-rejected", f"{argv!r} rejected with {r[1]}"))
         if len(argv) == 2 and argv[0] in commands and argv[1] in ("-v", "--verbose") and not no_log and not accepted:
@@ -777,14 +928,27 @@ TECHNIQUE = ("Coq proof (induction over the declaration list with a closed form 
 LEVEL_TEXT = ("Full (model level, unbounded declaration lists / option lists / argument vectors): declare_never_fails (wf <-> the "
               "declarations are accepted; every acyclic order incl. diamonds), declare_fails_only_by_assertion, "
               "constructor_never_fails / constructor_accepts_rendered / declaration_syntax (string syntax), "
-              "dependents_are_descendants (dependents = transitive descendants, each once), option_scope_state and option_scope "
-              "(an added flag is accepted by command d iff it was added to the ArgParser, to d or to a transitive parent of d), "
-              "std_options_everywhere, default_is_first_command, default_command + default_command_subparse under the explicit guard "
-              "'first argument is not the name of any declared parser'.  Refuted: default_command_statement (the property's own "
-              "wording) by default_command_internal_name_refuted -- open finding default-internal-set-name.  Partial in this sense: "
-              "argparse is a universally quantified function constrained by sub_spec (single-option vectors); the stand-in mini_sub "
-              "is proved to meet sub_spec (argparse_model_meets_spec) and is compared with the real argparse on multi-token vectors "
-              "only by the correspondence check; duplicated option names, single-command mode and help output are tested/not claimed.")
+              "dependents_are_descendants (dependents = transitive descendants, each once), option_scope_state (flags, value "
+              "options and positionals: parser c holds o iff the adding call is in scope of c) and option_scope (an added flag "
+              "is accepted by command d iff it was added to the ArgParser, to d or to a transitive parent of d), "
+              "option_scope_vector + vector_namespace (multi-token vectors '--f.. w.. --g..': accepted iff EVERY flag is in "
+              "scope and, with words, a positional is; the namespace has exactly the flags in scope, True iff given, the words "
+              "in the first positional in scope, the value options in scope at None), value_option_scope ('d --u VALUE' and "
+              "'d --u=VALUE' accepted iff in scope; namespace holds VALUE), add_argument_exceptions / "
+              "get_cmd_parser_unknown_name (only ValueError for an unknown name and ArgumentError), duplicate_option_conflict "
+              "(re-adding an option string, as flag or value option, raises ArgumentError iff the scopes of the two calls meet, "
+              "otherwise returns), std_option_conflict, std_options_everywhere, default_is_first_command, default_command + "
+              "default_command_subparse under the explicit guard 'first argument is not the name of any declared parser', "
+              "default_command_vector (the default command on multi-token vectors: acceptance, command, words to its positional). "
+              " Refuted: default_command_statement (the property's own wording) by default_command_internal_name_refuted -- "
+              "open finding default-internal-set-name, now delimited exactly: default_command_without_positional (the wording "
+              "HOLDS for every default command without a positional) and default_internal_name_disagrees (it FAILS for every "
+              "default command with a nargs='*' positional and every internal set name).  Partial in this sense: argparse is a "
+              "universally quantified function constrained by sub_spec / sub_spec_vec (the vector shapes listed in TRUSTED_BASE); "
+              "the stand-in mini_sub is proved to meet both (argparse_model_meets_spec, argparse_model_meets_vector_spec) and is "
+              "compared with the real argparse on every run; vectors outside those shapes (standard options mixed with added "
+              "ones, value options inside longer vectors, repeated blocks), single-command mode and help output are tested by "
+              "the correspondence only / not claimed.")
 LEVEL_NOTE = ("Trusted: Coq kernel + vm_compute; fidelity of the hand model (checked by correspondence, not proved); argparse "
               "(abstracted as sub_spec, concrete stand-in compared per run); the ast extractor and the harness.")
 DESIGN_REF = "DESIGN.md section 8, C19"
